@@ -37,6 +37,7 @@ def instrOfJson (j : Json) : Except String Prog := do
   | "put" => .ok (.put (← asStr (← argAt j 1)) (← asStr (← argAt j 2)) (← exprOfJson (← argAt j 3)))
   | "decl" => .ok (.decl (← asStr (← argAt j 1)) (← asStr (← argAt j 2)) (← exprOfJson (← argAt j 3)))
   | "rng" => .ok (.rng (← asStr (← argAt j 1)))
+  | "rngat" => .ok (.rngAt (← asList asStr (← argAt j 1)) (← asStr (← argAt j 2)))
   | _ => .error "bad-args"
 
 def progOfJson (j : Json) : Except String Prog := do
